@@ -37,18 +37,20 @@ class S(vlib.Spec):
                 "StructLikeReadField, FieldReadStructLike/Map/Set/List (skip of filtered elements); generator/golang/thrift.go ZeroWriter "
                 "-> coq/Wire/Masked.v (hand-written over an abstract selector, instantiated with the field-mask library model coq/Mask/Trie.v "
                 "of property C14 and with residual path sets; after the repairs proposed_fixes/C13-1..6), on top of the standard codec "
-                "coq/Wire/Std.v (property C02); Wire/GenTables.v regenerated from generator/golang/types.go on every run")
+                "coq/Wire/Std.v (property C02); Pass_FieldMask on objects that already carry sub masks (field_mask_halfway, a second Write "
+                "of the same object) -> coq/Wire/MaskedHalfway.v, compared with the real second Write on every run; "
+                "Wire/GenTables.v regenerated from generator/golang/types.go on every run")
     trusted_base = [
         "hand-written model coq/Wire/Masked.v (mirrors the with_field_mask branches of templates/struct.go and ZeroWriter) on top of Wire/Std.v, Wire/Value.v, Wire/Schema.v, Wire/Codec.v (C02's trusted base applies)",
         "the field-mask library model coq/Mask/{Path,Desc,Trie,Spec}.v of property C14 (queries Field/Int/Str/Exist/All, NewFieldMask); tied to fieldmask/*.go here through the masks the REAL library builds in every case and by C14's own check",
         "the descriptor the library sees is derived in Coq from the schema (Wire.Masked.dty_of / senv_of: typedefs resolved, union and exception types have no mask type) instead of being read from the generated reflection data",
-        "objects are fresh: no sub object carries a mask of its own (field_mask_halfway then behaves like the default) and no pointer is shared",
+        "objects are fresh or were written once before as fresh objects (Wire/MaskedHalfway.v models the sub masks a halfway Write leaves behind); masks set by the user on non-root objects and shared pointers are outside the model",
         "github.com/apache/thrift v0.13.0 TBinaryProtocol / TMemoryBuffer / Skip as modelled by Wire/Codec.v",
         "harness/schemagen, valgen, maskkit (path rendering), cmd/c13 (value-directed path lists), gendrv + gendrv/driver (c13_mask.go: builds the mask with the real NewFieldMask, Set_FieldMask, Write / Read), coqfmt, casefile, lib/vlib.py, harness/cmd/translate-wire",
         "the real thriftgo binary and go build are run on every check",
     ]
     assumptions = [
-        "the path-set statements (masked_write_pathset, masked_read_pathset) take the agreement of the mask with the path set as a premise; on C14's domain that premise is the conclusion of C14's build_sound, and the correspondence evaluates it on every generated in-domain case",
+        "the end-to-end statements (masked_write_end_to_end, masked_read_end_to_end) are for path lists of C14's domain (in_mask_domain: grammatical, typed, conflict free; black lists without a trailing star) and rest on C14's build_sound (Mask/C14Facts.v), imported; outside the domain the mask-level theorems (every mask) and the correspondence apply",
         "field_mask_zero_required: the peer can decode a filtered required struct field only if that struct has no required field (known finding otherwise)",
         "map entries are selected by the key the asking side holds (they differ between writer and reader only for enum keys outside int32)",
     ]
